@@ -72,6 +72,17 @@ func guardOf(env *Env, x ast.Expr) string {
 }
 
 func (fr *Frame) evalModLoc(env *Env, cl Clause) (out []modLoc) {
+	if strings.HasSuffix(cl.File, ".schema") {
+		defer func() {
+			if r := recover(); r != nil {
+				if _, ok := r.(contractError); ok {
+					out = nil
+					return
+				}
+				panic(r)
+			}
+		}()
+	}
 	defer func() {
 		if g := guardOf2(env, cl.Expr); g != "" {
 			for i := range out {
@@ -102,6 +113,35 @@ func (fr *Frame) evalModLoc(env *Env, cl Clause) (out []modLoc) {
 		p := tv.V.(Ptr)
 		return []modLoc{{root: p.Root, path: p.Path, base: p.Base}}
 	case *ast.CallExpr:
+		if id, ok := x.Fun.(*ast.Ident); ok && id.Name == "deep" {
+			// deep(p): every leaf of the struct p points to, including structs embedded by value
+			tv := env.eval(x.Args[0])
+			pt, ok := under(tv.T).(*types.Pointer)
+			if !ok {
+				env.fail(x, "deep() needs a pointer")
+			}
+			p := tv.V.(Ptr)
+			var locs []modLoc
+			seen := map[string]bool{}
+			for _, l := range leaves(pt.Elem()) {
+				name, q := leafLoc(p, l.Path)
+				_ = name
+				lp := l.Path
+				if _, rest := resolveLeaf(p, l.Path); rest != "" {
+					lp = rest
+				}
+				k := q.Root + "|" + lp + "|" + q.Base
+				if seen[k] {
+					continue
+				}
+				seen[k] = true
+				if rt := rootTypes[q.Root]; rt != nil {
+					fr.vc.declareLeafHeaps(env.st, q.Root, "", rt)
+				}
+				locs = append(locs, modLoc{root: q.Root, path: strings.SplitN(lp, "#", 2)[0], base: q.Base})
+			}
+			return locs
+		}
 		if id, ok := x.Fun.(*ast.Ident); ok && id.Name == "all" {
 			// all(T.f) : field f of every object of type T ; all(T) : every field
 			switch a := x.Args[0].(type) {
@@ -207,12 +247,25 @@ func (fr *Frame) frameCheck(st *State, p Ptr, pos token.Pos) {
 	fr.safety("frame", st, goal, pos, "")
 }
 
+// outerBase strips (sub X id) wrappers: the object that physically contains an embedded struct.
+func outerBase(t string) string {
+	for strings.HasPrefix(t, "(sub ") {
+		inner := t[5 : len(t)-1]
+		k := strings.LastIndex(inner, " ")
+		if k < 0 {
+			break
+		}
+		t = inner[:k]
+	}
+	return t
+}
+
 func (fr *Frame) frameGoal(root, path, base string) string {
 	vc := fr.vc
-	if vc.freshRefs[base] {
+	if vc.freshRefs[base] || vc.freshRefs[outerBase(base)] {
 		return "true"
 	}
-	alts := []string{le(vc.allocOf(fr.entry), base)}
+	alts := []string{le(vc.allocOf(fr.entry), outerBase(base))}
 	for _, m := range fr.modLocs {
 		if m.covers(Ptr{Root: root, Path: path}) {
 			if m.whole {
@@ -412,7 +465,10 @@ func (fr *Frame) inlineCall(fn *ssa.Function, args []Val, binds []Val, pos token
 		// library code may leave the subset (unsafe, runtime internals): fall back to an external call
 		failed := false
 		saveObl, saveLines := len(vc.obligs), len(vc.lines)
+		vc.note("library function inlined; its own safety obligations are not generated (A-DEP: the Go standard library does not panic on these calls): " + fn.String())
+		vc.dry++
 		func() {
+			defer func() { vc.dry-- }()
 			defer func() {
 				if r := recover(); r != nil {
 					if _, ok := r.(unsupported); ok {
